@@ -34,6 +34,37 @@ RULE = ("all shapes up to N nodes (quick 4, thorough 5) x start nodes x query ba
 VALUES = [0, 1, 2, None, "s", [1, 2], []]
 
 
+NAMES = ["x", "y", "label", "zz", "depth", "height", "kind"]     # stored, missing, computed (properties), class-level
+BOOL_NAMES = ["is_leaf", "is_root"]
+
+
+def _name_value(rng):
+    """attribute name and a value of a matching kind (Python's 1 == True must not enter the picture)"""
+    if rng.random() < 0.2:
+        return rng.choice(BOOL_NAMES), rng.choice([True, False])
+    name = rng.choice(NAMES)
+    if name == "kind":
+        return name, rng.choice(["plain", "plain", "s", None])
+    return name, rng.choice(VALUES + [None])
+
+
+def _computed(t):
+    """[label, name, value] for the attributes every node has without storing them: the navigation properties"""
+    out = []
+
+    def walk(node, depth):
+        hs = [walk(c, depth + 1) for c in node[1]]
+        h = 0 if not hs else 1 + max(hs)
+        out.append([node[0], "depth", depth])
+        out.append([node[0], "height", h])
+        out.append([node[0], "is_leaf", not node[1]])
+        out.append([node[0], "is_root", depth == 0])
+        return h
+
+    walk(t, 0)
+    return out
+
+
 def _queries(rng, t, start, attrs, n):
     sub = gen.tree_labels(_sub(t, start))
     qs = []
@@ -51,11 +82,12 @@ def _queries(rng, t, start, attrs, n):
         elif r < 0.6:
             qs.append({"fn": "find", "filter_out": fo, "stop": st, "maxlevel": m, "defaults": rng.random() < 0.3})
         elif r < 0.8:
-            qs.append({"fn": "findall_by_attr", "name": rng.choice(["x", "y", "label", "zz"]), "value": rng.choice(VALUES + [None]),
+            nm, val = _name_value(rng)
+            qs.append({"fn": "findall_by_attr", "name": nm, "value": val,
                        "maxlevel": m, "mincount": rng.choice([None, 0, 1, 2]), "maxcount": rng.choice([None, 0, 1, 2, 9])})
         else:
-            qs.append({"fn": "find_by_attr", "name": rng.choice(["x", "y", "label", "zz"]), "value": rng.choice(VALUES + [None]),
-                       "maxlevel": m})
+            nm, val = _name_value(rng)
+            qs.append({"fn": "find_by_attr", "name": nm, "value": val, "maxlevel": m})
     return qs
 
 
@@ -66,12 +98,17 @@ def _case(rng, t):
         for name in ("x", "y"):
             if rng.random() < 0.6:
                 attrs.append([l, name, rng.choice(VALUES)])
-    # every PNode has a `label` attribute: mirror it in the table
-    attrs += [[l, "label", l] for l in labs]
+    cls = rng.choice(["nm", "nm", "nm", "light", "falsy"])
+    if cls == "light":
+        attrs = []                                   # a fully slotted class: `label` is its only data attribute
+    else:
+        attrs += [[l, "kind", "plain"] for l in labs]    # class-level default of the harness class
+    # every node has a `label` attribute and the navigation properties: mirror them in the table
+    attrs += [[l, "label", l] for l in labs] + _computed(t)
     start = rng.choice(labs)
-    c = {"fam": "search", "tree": t, "start": start, "attrs": attrs,
+    c = {"fam": "search", "tree": t, "start": start, "attrs": attrs, "cls": cls,
          "queries": _queries(rng, t, start, attrs, 8), "module": rng.choice(["search", "cachedsearch"])}
-    if rng.random() < 0.5:
+    if rng.random() < 0.5 and cls != "light":
         # the same calls (same predicate objects, equal values) were already made on an earlier state of the tree:
         # other x/y values, one more node below the start node
         sub = gen.tree_labels(_sub(t, start))
